@@ -410,7 +410,7 @@ pub fn run(args: &Args, report: &mut Report) {
         return;
     }
     let scens = scenarios(args.seed ^ 0xC05, report.thorough());
-    let n_pairs = report.size(120, 3000);
+    let n_pairs = report.size(600, 12_000);
     let seed = args.seed;
     // work items: (scenario, evaluation index chunk)
     let bases: Vec<Trace> = scens.iter().map(|s| run_scenario(s, &BTreeMap::new(), 10)).collect();
